@@ -10,7 +10,7 @@ From HL7 Require Import Gen.Params Gen.Tables.
 From HL7 Require Import Proofs.HeaderFacts Proofs.RoundTripStr Proofs.RoundTripSeg Proofs.RoundTripTables
      Proofs.NoCrash Proofs.NoCrashTables Proofs.NoCrashMsg Proofs.GroupsFacts Proofs.GroupsMirror
      Proofs.NoCrashGroupedCore.
-From HL7 Require Proofs.SplitJoin Proofs.RoundTripMsg Proofs.RoundTripMsgTables.
+From HL7 Require Proofs.SplitJoin Proofs.RoundTripMsg Proofs.RoundTripMsgTables Proofs.PiecesFacts.
 Import ListNotations.
 Open Scope bs_scope.
 Open Scope res_scope.
@@ -366,10 +366,11 @@ Proof.
   exact (G s []).
 Qed.
 
-Lemma pieces_first s : first_line s <> [] -> exists ps, pieces s = first_line s :: ps.
+(* parse_segments strips the piece first: the first piece is the STRIPPED first line *)
+Lemma pieces_first s : strip (first_line s) <> [] -> exists ps, pieces s = strip (first_line s) :: ps.
 Proof.
-  intros H. unfold pieces. destruct (bsplit_first_line s) as [tl ->]. cbn [filter].
-  destruct (first_line s); [congruence|eauto].
+  intros H. unfold pieces. destruct (bsplit_first_line s) as [tl ->]. cbn [map filter].
+  destruct (strip (first_line s)); [congruence|eauto].
 Qed.
 
 Lemma split_msh_shape text fields e : split_msh text = Ok (fields, e) ->
@@ -409,11 +410,11 @@ Qed.
 Lemma first_piece_msh text e structure version :
   get_message_info text = Ok (e, structure, version) ->
   exists ps seps tail,
-    pieces text = first_line text :: ps /\
+    pieces text = strip (first_line text) :: ps /\
     strip (first_line text) = unbs "MSH" ++ fsep e :: seps ++ tail /\
     (tail = [] \/ exists r, tail = fsep e :: r) /\
     nosep beqb (fsep e) seps = true /\ is_space (fsep e) = false /\
-    existsb is_space seps = false /\ 4 <= length seps /\ take 3 (first_line text) = unbs "MSH".
+    existsb is_space seps = false /\ 4 <= length seps /\ take 3 (strip (first_line text)) = unbs "MSH".
 Proof.
   unfold get_message_info. intros H. destruct (split_msh text) as [[fields e']|] eqn:Es; [|discriminate].
   cbn [bind] in H. injection H as <- _ _.
@@ -430,14 +431,16 @@ Proof.
     - exists []. split; [cbn; now rewrite app_nil_r|now left].
     - exists (fs :: bjoin fs (m1 :: more)). split; [reflexivity|right; eauto]. }
   destruct Ej as (tail0 & Ej & Ht0).
-  destruct (pieces_first (unbs "MSH" ++ fs :: rest)) as [ps Ep]; [rewrite Efl; discriminate|].
   destruct (strip_by_shape is_space (unbs "MSH" ++ fs :: seps) tail0 fs) as (tail & Est & Ht); [discriminate| |exact Hs|exact Ht0|].
   { rewrite forallb_app. cbn [forallb]. rewrite Hs. cbn [negb andb]. rewrite (nospace_forallb seps Hsp). reflexivity. }
-  exists ps, seps, tail. split; [exact Ep|]. split; [|repeat split; try assumption; now rewrite Efl].
-  rewrite Efl, Ej. unfold strip.
-  replace (unbs "MSH" ++ fs :: seps ++ tail0) with ((unbs "MSH" ++ fs :: seps) ++ tail0)
-    by (rewrite <- app_assoc; reflexivity).
-  rewrite Est. rewrite <- app_assoc. reflexivity.
+  assert (Estrip : strip (first_line (unbs "MSH" ++ fs :: rest)) = unbs "MSH" ++ fs :: seps ++ tail).
+  { rewrite Efl, Ej. unfold strip.
+    replace (unbs "MSH" ++ fs :: seps ++ tail0) with ((unbs "MSH" ++ fs :: seps) ++ tail0)
+      by (rewrite <- app_assoc; reflexivity).
+    rewrite Est. rewrite <- app_assoc. reflexivity. }
+  destruct (pieces_first (unbs "MSH" ++ fs :: rest)) as [ps Ep]; [rewrite Estrip; discriminate|].
+  exists ps, seps, tail. split; [exact Ep|]. split; [exact Estrip|].
+  repeat split; try assumption. now rewrite Estrip.
 Qed.
 
 (* the first item ends up as the first top-level leaf, parsed with the reference the search from the
@@ -502,22 +505,22 @@ Hypothesis Hr2 : row_ref t row2 = Some (SLeaf inf2).
 (* the header facts about the text *)
 Variable text : str.
 Variables (ps : list str) (seps tail : str).
-Hypothesis Ep : pieces text = first_line text :: ps.
+Hypothesis Ep : pieces text = strip (first_line text) :: ps.
 Hypothesis Estrip : strip (first_line text) = unbs "MSH" ++ fsep e :: seps ++ tail.
 Hypothesis Htail : tail = [] \/ exists r, tail = fsep e :: r.
 Hypothesis Hns : nosep beqb (fsep e) seps = true.
 Hypothesis Hfs : is_space (fsep e) = false.
 Hypothesis Hsp : existsb is_space seps = false.
 Hypothesis Hlen : 4 <= length seps.
-Hypothesis Htake : take 3 (first_line text) = unbs "MSH".
+Hypothesis Htake : take 3 (strip (first_line text)) = unbs "MSH".
 
 Lemma seg_of_piece_msh r a :
   (forall sr, r = Some sr -> slookup (unbs "MSH") (t_segments t) = Some sr) ->
-  seg_of_piece t lvl e leaf (first_line text) r = Ok a ->
+  seg_of_piece t lvl e leaf (strip (first_line text)) r = Ok a ->
   s_name a = unbs "MSH" /\ field_value a (unbs "MSH_1") = Some [fsep e] /\
   field_value a (unbs "MSH_2") = Some seps.
 Proof.
-  intros Hr H. unfold seg_of_piece in H. rewrite Estrip in H.
+  intros Hr H. unfold seg_of_piece in H. rewrite Proofs.PiecesFacts.strip_idem, Estrip in H.
   assert (Hne : seps <> []) by (intros ->; cbn in Hlen; lia).
   apply (parse_msh_values t lvl e leaf Hsegs srows row1 row2 inf1 inf2 Hl Hn1 Hn2 Hr1 Hr2 seps tail a Htail Hns Hfs Hne Hsp).
   destruct r as [sr|]; [|exact H]. unfold parse_segment in *.
@@ -542,7 +545,7 @@ Proof.
   apply bind_ok in Hf. destruct Hf as (s & Hrun & Hf). injection Hf as <-.
   rewrite Ep in Hrun. cbn [Groups.run] in Hrun. apply bind_ok in Hrun. destruct Hrun as (s1 & Hs1 & Hrun).
   destruct (first_step_leaf' t str seg (take 3) (seg_of_piece t lvl e leaf) s_name (group_admission t lvl) root
-              (first_line text) s1) as (a & r & Ef & Em & Hr); [|exact Hs1|].
+              (strip (first_line text)) s1) as (a & r & Ef & Em & Hr); [|exact Hs1|].
   { rewrite Htake. unfold msh_top_ok in Htop. destruct (search t search_fuel (unbs "MSH") root) as [[[sr [|? ?]]|]|]; (exact I || discriminate). }
   assert (Hh : Proofs.RoundTripMsg.hd_leaf seg a r (g_forest s1)) by (exists []; exact Ef).
   pose proof (Proofs.RoundTripMsg.run_hd t str seg (take 3) (seg_of_piece t lvl e leaf) s_name (group_admission t lvl)
